@@ -32,6 +32,61 @@ theorem ioworker_unguarded_defect :
     (runWith true [.send [1,2], .pumpRW .error (.accept 9)]).offeredAfterClose = 0 ∧
     (runWith true [.send [1,2], .pumpRW .error (.accept 9)]).closeEvents = 1 := by decide
 
+/-- **ioworker_shutdown**: `IOWorker.shutdown(send)` (what `OFConnection.close` calls) never loses queued bytes — in every
+history the socket is shut down for writing only at a moment when it has accepted everything queued until then, at most
+once (a socket shut down for writing refuses every later write: assumed OS fact `St.eff`), and a requested shutdown that
+had to wait for unwritten data IS carried out by the write that drains the buffer. -/
+theorem ioworker_shutdown (ops : List Op) :
+    (∀ e ∈ (run ops).shutLog, e.1 = e.2) ∧ (run ops).shutLog.length ≤ 1 ∧
+    ((run ops).shutReq = true → (run ops).pendSinceReq = true → (run ops).sendBuf = [] → (run ops).closed = false →
+      (run ops).shutLog ≠ []) :=
+  ⟨(run_inv ops).drained, (run_inv ops).shutOnce, (run_inv ops).happens⟩
+
+/-- the ghost `pendSinceReq` means what its name says: a `shutdown(send)` requested while data is unwritten sets it -/
+theorem shutdown_with_pending (ops : List Op) (h : (run ops).sendBuf ≠ []) :
+    (run (ops ++ [.shutdown])).pendSinceReq = true ∧ (run (ops ++ [.shutdown])).shutReq = true := by
+  have hb : (run ops).sendBuf.isEmpty = false := by
+    cases hs : (run ops).sendBuf with
+    | nil => exact absurd hs h
+    | cons a l => rfl
+  simp only [run, List.foldl_append, List.foldl_cons, List.foldl_nil, step, step0]
+  simp only [run] at hb
+  simp [hb]
+
+/-- **ioworker_progress**: back-pressure only delays — when the socket of a live worker takes what it is offered, one loop
+iteration empties the send buffer and the socket has then accepted exactly everything queued. -/
+theorem ioworker_progress (ops : List Op) (k : Nat) (hc : (run ops).closed = false) (hl : (run ops).shutLog = [])
+    (hk : (run ops).sendBuf.length ≤ k) :
+    (run (ops ++ [.pump (.accept k)])).sendBuf = [] ∧
+    (run (ops ++ [.pump (.accept k)])).accepted = (run (ops ++ [.pump (.accept k)])).queued := by
+  have hinv := run_inv (ops ++ [.pump (.accept k)])
+  suffices h : (run (ops ++ [.pump (.accept k)])).sendBuf = [] by
+    refine ⟨h, ?_⟩
+    have := hinv.stream; rw [h] at this; simpa using this
+  simp only [run, List.foldl_append, List.foldl_cons, List.foldl_nil] at *
+  generalize List.foldl step {} ops = s at *
+  show (step0 s (.pump (.accept k))).sendBuf = []
+  simp only [step0, doSend, hc, Bool.false_eq_true, if_false]
+  split
+  · rename_i h0; exact List.length_eq_zero_iff.mp h0
+  · rename_i h0
+    have heff : s.offer.eff (.accept k) = .accept k := by simp [St.eff, St.offer, hl]
+    have hmin : min k s.offer.sendBuf.length = s.sendBuf.length := by
+      show min k s.sendBuf.length = _; omega
+    simp only [writeBuf, heff, hmin, h0, if_false]
+    unfold St.took St.afterWrite
+    split <;> simp [St.offer]
+
+/-- the code as it stands: a `shutdown(send)` requested when nothing is pending is never carried out (no later write
+    finds `_shutdown_send` with a buffer it has just drained); the theorem above is therefore about requests that wait -/
+example : (run [.send [1], .pump (.accept 1), .shutdown, .pump (.accept 1), .pump (.accept 1)]).shutLog = [] := by decide
+example : (run [.send [1,2,3], .shutdown, .pump (.accept 2), .pump .again, .pump (.accept 5)]).shutLog = [([1,2,3], [1,2,3])] ∧
+    (run [.send [1,2,3], .shutdown, .pump (.accept 2), .pump .again, .pump (.accept 5)]).pendSinceReq = true := by decide
+/-- after the shutdown the socket refuses: a later message closes the worker (once), nothing more is accepted -/
+example : (run [.send [1,2], .shutdown, .pump (.accept 2), .send [3], .pump (.accept 1)]).closed = true ∧
+    (run [.send [1,2], .shutdown, .pump (.accept 2), .send [3], .pump (.accept 1)]).accepted = [1,2] ∧
+    (run [.send [1,2], .shutdown, .pump (.accept 2), .send [3], .pump (.accept 1)]).closeEvents = 1 := by decide
+
 /-- **ctl_stream**: in every reachable state of the two-actor system, while the connection is up, socket-accepted bytes
 ++ deferred queue ++ the in-flight message = everything queued; and always the accepted bytes are a prefix of it. -/
 theorem ctl_stream (pb : Nat) (acts : List Act) :
